@@ -11,7 +11,7 @@ use std::collections::HashSet;
 pub static DEF: PropDef = PropDef {
     id: "C03",
     level: "exploration",
-    total: |t| t.pick(64, 1600),
+    total: |t| t.pick(256, 3200),
     run,
     rule: "(a) bounded depth-first enumeration of executions of a real TCB pair (both open styles): at every state each in-flight segment may be delivered, dropped (<=2) or duplicated (<=1), a 101 ms timer may fire (<=2), either application may close (once each, in every reachable state) or write 1/3000 bytes (once each); emitted segments enter the network automatically; visited states are hashed on both snapshots + in-flight multiset; every call is checked by the transition/sync/data-before-FIN monitor and leaves are completed over a fair network to check release. (b) random deeper schedules with writes up to 3000 bytes queued or in flight at close, old duplicate SYN of an earlier incarnation injected, then closes and a fair network. Non-trivial = both endpoints reached a closing state; distinct by final monitor trace hash. Evidence lists the distinct RFC 9293 edges exercised.",
     assumptions: &[
@@ -308,7 +308,10 @@ impl Mon {
             let o = 1 - s;
             if let (Some(me), Some(peer)) = (p.sides[s].snap(), p.sides[o].snap()) {
                 let synced = |x: State| !matches!(x, State::SynSent);
-                if synced(me.state) && synced(peer.state) && me.state != State::SynReceived {
+                // ... with each other: after a reset in SYN-RECEIVED the passive side may already be in a new
+                // incarnation (own ISS) while the other side still holds the old connection
+                let same_incarnation = me.irs == peer.iss && peer.irs == me.iss;
+                if synced(me.state) && synced(peer.state) && me.state != State::SynReceived && same_incarnation {
                     // what I expect next never exceeds what the peer has sent
                     if !seq_leq(me.rcv_nxt, peer.snd_nxt) {
                         return Some((
